@@ -180,7 +180,7 @@ def gen_doc(rng, max_custom=3, allow_data=True, dlm=None, vers=None, wrap=None, 
             tag = "%dq%d" % (o.id, j)
             # (a form feed inside a line — a page break of a printed remark — is white space, not a line end)
             lines.append((rng.choice(["other-%s", "  other-%s  ", "other-%s : with . colon", "VERS. 1.2 : other-%s", "other-%s # x",
-                                      "other-%s\x0cnext page", "page\x0cother-%s"]) % tag, "other", tag))
+                                      "other-%s\x0cnext page", "page\x0cother-%s", "# other-%s", "#other-%s : x"]) % tag, "other", tag))
         if rng.random() < fill:
             lines.insert(rng.randint(0, len(lines)), ("", "blank", None))
         o["body"] = lines
